@@ -3915,6 +3915,7 @@ class ControlConnection(object):
         token_map = {}
 
         found_hosts = set()
+        local_moved = False
         if local_result.parsed_rows:
             found_hosts.add(connection.endpoint)
             local_rows = dict_factory(local_result.column_names, local_result.parsed_rows)
@@ -3929,7 +3930,8 @@ class ControlConnection(object):
             if host:
                 datacenter = local_row.get("data_center")
                 rack = local_row.get("rack")
-                self._update_location_info(host, datacenter, rack)
+                # a changed datacenter / rack of the control host changes replica placement like a peer's does
+                local_moved = self._update_location_info(host, datacenter, rack)
                 host.host_id = local_row.get("host_id")
                 host.listen_address = local_row.get("listen_address")
                 host.listen_port = local_row.get("listen_port")
@@ -3972,7 +3974,7 @@ class ControlConnection(object):
         # Check metadata.partitioner to see if we haven't built anything yet. If
         # every node in the cluster was in the contact points, we won't discover
         # any new nodes, so we need this additional check.  (See PYTHON-90)
-        should_rebuild_token_map = force_token_rebuild or self._cluster.metadata.partitioner is None
+        should_rebuild_token_map = force_token_rebuild or local_moved or self._cluster.metadata.partitioner is None
         for row in peers_result:
             if not self._is_valid_peer(row):
                 log.warning(
